@@ -10,10 +10,10 @@ open Finset
 /-- the model's windowed weight is the hypergeometric weight (outside the window the binomials vanish) -/
 theorem projW_eq_hyp (n m h j : ℕ) (hm : m ≤ n) (hh : h ≤ n) : projW n m h j = hyp m n h j := by
   unfold projW
-  rw [chooseN_eq, chooseN_eq, chooseN_eq]
+  rw [chooseN_eq, chooseN_eq, chooseN_eq, inWin_eq n m h j hh]
   by_cases hw : m - (n - h) ≤ j ∧ j ≤ min h m
-  · rw [if_pos hw, hyp_of_le (by omega : j ≤ h)]
-  · rw [if_neg hw]
+  · rw [if_pos (by simpa using hw), hyp_of_le (by omega : j ≤ h)]
+  · rw [if_neg (by simpa using hw)]
     by_cases hjh : j ≤ h
     · rw [hyp_of_le hjh]
       by_cases hjm : j ≤ m
@@ -22,8 +22,8 @@ theorem projW_eq_hyp (n m h j : ℕ) (hm : m ≤ n) (hh : h ≤ n) : projW n m h
       · rw [Nat.choose_eq_zero_of_lt (by omega : m < j)]; simp
     · rw [hyp_of_lt (by omega)]
 
-theorem projW_zero_of_not_win (n m h j : ℕ) (hw : ¬ (m - (n - h) ≤ j ∧ j ≤ min h m)) : projW n m h j = 0 := by
-  unfold projW; rw [if_neg hw]
+theorem projW_zero_of_not_win (n m h j : ℕ) (hh : h ≤ n) (hw : ¬ (m - (n - h) ≤ j ∧ j ≤ min h m)) : projW n m h j = 0 := by
+  unfold projW; rw [inWin_eq n m h j hh, if_neg (by simpa using hw)]
 
 /-- every source count `h` is distributed completely over the targets `0..m` -/
 theorem projW_rowsum (n m h : ℕ) (hm : m ≤ n) (hh : h ≤ n) :
